@@ -24,7 +24,8 @@ RULE_TEXT = (
     "after the primary engine call; C03.c invariants database_set=>database==<a>, schema_set=>schema==<b>, "
     "<b>=main=>not schema_set, None=>not set, for USE DATABASE / USE SCHEMA (un)qualified / DROP of the current "
     "schema or database; C03.d guard traces: (90105|90106, 22000) raised before any engine call iff the statement "
-    "needs the missing context; C03.e templates carry the connection's own database/schema."
+    "needs the missing context; C03.e templates carry the connection's own database/schema, at all "
+    "three qualification levels of the target (given parts as given, missing ones from the session)."
 )
 TRUSTED = ["CPython ast", "DuckDB: the schema setting belongs to one cursor", "statement descriptors mirror the pinned parser"]
 
